@@ -13,6 +13,7 @@ static const int S = 10;
 struct Rc { int x0, y0, x1, y1; bool alive; bool touched; };   // touched: added or moved after the connectors were first routed
 struct Ep { int x0, y0, x1, y1; int a0 = -1; };   // a0 >= 0: the source end is attached to the centre pin of shape a0 (x0,y0 then unused)
 struct Op { int kind, a, dx, dy; };   // 0 move shape a by (dx,dy); 1 delete shape a; 2 add shape (list index a); 3 move endpoint: conn a, end dx (0/1), to point index dy; 4 process; 5 resize shape a: dx/dy added to its right/bottom side (moveShape with a new polygon); 6 attach the source end of conn a to the centre pin of shape dx
+static Rc g_custom{0, 0, 1, 1, true, false};   // the rectangle added by operation kind 7 (phases that add an arbitrary rectangle)
 static const vector<Rc> RL = {{2, 1, 3, 3}, {2, 2, 4, 3}, {1, 2, 2, 5}, {3, 0, 4, 2}, {2, 3, 3, 4}, {4, 2, 5, 5}};
 static const vector<Ep> EPS = {{0, 2, 6, 2}, {0, 0, 6, 6}, {1, 0, 5, 6}, {0, 3, 6, 1}, {3, 6, 3, 0}};
 static const vector<array<int, 2>> PTS = {{0, 5}, {6, 4}, {3, 5}};
@@ -20,6 +21,7 @@ static string op_str(const Op &o) {
     switch (o.kind) { case 0: return mcx::fmt("move(shape%d,%+d,%+d)", o.a, o.dx, o.dy); case 1: return mcx::fmt("delete(shape%d)", o.a); case 2: return mcx::fmt("add(rect#%d)", o.a);
                       case 5: return mcx::fmt("resize(shape%d,%+d,%+d)", o.a, o.dx, o.dy);
                       case 6: return mcx::fmt("setEndpoint(conn%d,src,pin of shape%d)", o.a, o.dx);
+                      case 7: return mcx::fmt("add([%d,%d..%d,%d])", g_custom.x0, g_custom.y0, g_custom.x1, g_custom.y1);
                       case 3: return mcx::fmt("setEndpoint(conn%d,%s,(%d,%d))", o.a, o.dx ? "dst" : "src", PTS[o.dy][0], PTS[o.dy][1]); default: return "processTransaction"; }
 }
 static int g_buf = 0;   // shapeBufferDistance in half cells (phases 'buffer'): grid points one cell... half a cell from a shape lie exactly on the border of its routing polygon
@@ -119,7 +121,11 @@ static void judge(const World &w, Avoid::Router *live, const vector<Avoid::ConnR
         if (invalid) { vector<string> kc; if (throughVertex && !ortho) kc.push_back("through_vertex"); if (chordNewer && !ortho) kc.push_back("chord_from_newer_vertex"); if (epOnRoutingBorder) kc.push_back("routing_polygon_chord_or_vertex"); ctx.violation("route_invalid_after_history", kc, desc, obs); continue; }
         // (ii) cost no more than from scratch
         double ci = cost(ri, ortho), cf = cost(rf, ortho);
-        if (ci > cf + 1e-6) ctx.violation("costlier_than_fresh", epOnRoutingBorder ? vector<string>{"routing_polygon_chord_or_vertex"} : vector<string>{}, desc, mcx::fmt("incremental cost %.9g fresh %.9g; ", ci, cf) + obs);
+        // class of KF-C06-4: an end of the connector lies strictly inside a shape that ANOTHER live shape of the judged scene overlaps.  The corners of the overlapping shape that lie
+        // inside the enclosing one are usable for that connector in some construction sequences and not in others, so even two FRESH routers (scene built with / without a
+        // further, unrelated shape) disagree about the route -- "no dearer than from scratch" has no stable reference there.
+        bool enclOverlapped = false; for (size_t si = 0; si < w.shapes.size(); si++) if ((encl[k] >> si & 1) && w.shapes[si].alive) for (size_t sj = 0; sj < w.shapes.size(); sj++) if (sj != si && w.shapes[sj].alive && overlapR(w.shapes[si], w.shapes[sj])) enclOverlapped = true;
+        if (ci > cf + 1e-6) ctx.violation("costlier_than_fresh", epOnRoutingBorder ? vector<string>{"routing_polygon_chord_or_vertex"} : enclOverlapped ? vector<string>{"end_inside_a_shape_that_another_shape_overlaps"} : vector<string>{}, desc, mcx::fmt("incremental cost %.9g fresh %.9g; ", ci, cf) + obs);
         if (fabs(ci - cf) > 1e-6) ctx.count("differs_from_fresh");
         // (ii') polyline, no buffer: the exact Euclidean shortest path over the visibility graph of the final scene (the C04 oracle) -- independent of the fresh router
         if (!ortho && !g_buf && ck.a0 < 0 && !encl[k]) { vector<Poly> sc; for (auto &sh : w.shapes) if (sh.alive) sc.push_back(rect(sh.x0, sh.y0, sh.x1, sh.y1)); VisGraph vg(sc, P{ck.x0, ck.y0}, P{ck.x1, ck.y1}); double ex = vg.shortest(0, false) * S;
@@ -145,6 +151,7 @@ static void run_history(const World &w0, const vector<Op> &ops, bool ortho, bool
         else if (o.kind == 1) { r->deleteShape(sh[o.a]); w.shapes[o.a].alive = false; sh[o.a] = nullptr; }
         else if (o.kind == 5) { Rc &c = w.shapes[o.a]; c.x1 += o.dx; c.y1 += o.dy; c.touched = true; Avoid::Rectangle pg(Avoid::Point(c.x0 * S, c.y0 * S), Avoid::Point(c.x1 * S, c.y1 * S)); r->moveShape(sh[o.a], pg); }
         else if (o.kind == 2) { Rc c = RL[o.a]; c.alive = true; c.touched = true; w.shapes.push_back(c); sh.push_back(mk_shape(r, c)); }
+        else if (o.kind == 7) { Rc c = g_custom; c.alive = true; c.touched = true; w.shapes.push_back(c); sh.push_back(mk_shape(r, c)); }
         else if (o.kind == 3) { Avoid::ConnEnd e(Avoid::Point(PTS[o.dy][0] * S, PTS[o.dy][1] * S)); if (o.dx) { lc[o.a]->setDestEndpoint(e); w.conns[o.a].x1 = PTS[o.dy][0]; w.conns[o.a].y1 = PTS[o.dy][1]; } else { lc[o.a]->setSourceEndpoint(e); w.conns[o.a].x0 = PTS[o.dy][0]; w.conns[o.a].y0 = PTS[o.dy][1]; w.conns[o.a].a0 = -1; } }
         else if (o.kind == 6) { lc[o.a]->setSourceEndpoint(Avoid::ConnEnd(sh[o.dx], 1)); w.conns[o.a].a0 = o.dx; }
         pending++;
@@ -296,6 +303,27 @@ static void inside_phase(int G, bool transactions) {
     }
 }
 
+// An endpoint strictly inside a shape S, a bar B that OVERLAPS S and lies between S's boundary and the endpoint (not containing it), then a third shape C added in a
+// later transaction (the sweep for C's corners looks at the endpoint through S and then B, and records what blocks the view), then B deleted or moved: the
+// blocked-edge records made in the second transaction must name B, or its removal re-tests nothing.  S = [2,8]^2 with the source at its centre; B every bar of
+// 16 (rows/columns next to the centre, poking in from either side, across, or inside S); C every free cell; eight targets on a ring.
+static void inside_overlap_phase(bool transactions, int cstep) {
+    ctx.phase(mcx::fmt("polyline, source at the centre of a 6x6 shape S, a bar B overlapping S next to the source, a cell C added later (every %d-th), then B deleted / moved; 8 targets; transactions=%d", cstep, transactions));
+    Rc Sh{2, 2, 8, 8, true, false}; const int ex = 5, ey = 5; vector<Rc> Bs;
+    for (int orient = 0; orient < 2; orient++) for (int row : {3, 6}) for (auto &xt : vector<array<int, 2>>{{0, 6}, {4, 10}, {0, 10}, {3, 7}}) Bs.push_back(orient ? Rc{row, xt[0], row + 1, xt[1], true, false} : Rc{xt[0], row, xt[1], row + 1, true, false});
+    static const int RING[8][2] = {{5, -2}, {5, 12}, {-2, 5}, {12, 5}, {-2, -2}, {12, 12}, {-2, 12}, {12, -2}};
+    size_t cnt = 0;
+    for (auto &B : Bs) for (int cx = 0; cx < 10; cx++) for (int cy = 0; cy < 10; cy++) { Rc C{cx, cy, cx + 1, cy + 1, true, false}; if (overlapR(C, Sh) || overlapR(C, B)) continue; if ((cnt++ % cstep) != 0) continue;
+        for (auto &tg : RING) for (int o2 = 0; o2 < 5; o2++) {
+            if (ctx.stopped()) return; if (!ctx.next()) continue;
+            World w0; w0.shapes = {Sh, B}; w0.conns.push_back(Ep{ex, ey, tg[0], tg[1]}); g_custom = C;
+            vector<Op> ops; ops.push_back({7, 0, 0, 0});
+            if (o2 == 0) ops.push_back({1, 1, 0, 0}); else ops.push_back({0, 1, o2 == 1 ? 1 : o2 == 2 ? -1 : 0, o2 == 3 ? 1 : o2 == 4 ? -1 : 0});
+            string hs = world_str(w0) + " ops: " + op_str(ops[0]) + " " + op_str(ops[1]); ctx.sample(hs, 1); ctx.announce(hs);
+            try { run_history(w0, ops, false, transactions, 1); } catch (vpsc::CriticalFailure &f) { ctx.library_abort(f.what(), hs); }
+            ctx.done_case(); } }
+}
+
 // Connectors that start with NO route: the source sits in a hole closed by a pinwheel of four touching rectangles (no free path exists, which is not judged);
 // every history of depth 1..depth over the legal edits then opens (or does not open) the enclosure, and from then on the connector is judged like any other.
 static void enclosure_phase(int depth, bool transactions) {
@@ -313,7 +341,7 @@ int main(int argc, char **argv) {
     for (int ortho = 0; ortho < 2; ortho++) { phase(2, 1, 1, ortho, true, 1, 1, true); phase(2, 1, 2, ortho, true, 2, 1, true); phase(2, 1, 2, ortho, true, 1, 2, true); }
     g_pins = false;
     enclosure_phase(1, true); enclosure_phase(2, true); enclosure_phase(2, false);
-    g_allowOverlap = true; enclosure_phase(1, true); enclosure_phase(2, true); enclosure_phase(2, false); g_allowOverlap = false;
+    g_allowOverlap = true; enclosure_phase(1, true); enclosure_phase(2, true); enclosure_phase(2, false); inside_overlap_phase(true, T ? 1 : 3); if (T) inside_overlap_phase(false, 1); g_allowOverlap = false;
     for (int b : {2, 1}) { g_buf = b; phase(2, 1, 1, false, true, 1, 1); phase(2, 1, 2, false, true, 1, 1); if (T) phase(2, 1, 3, false, true, 1, 2); } g_buf = 0;
     grid_phase(3, false, 0); grid_phase(3, false, 1); grid_phase(3, false, 100); grid_phase(3, true, 0); grid_phase(3, false, 200); bar_block_phase(5, 3); inside_phase(7, true);
     if (T) { inside_phase(7, false); inside_phase(8, true); bar_block_phase(5, 1); bar_block_phase(6, 2); grid_phase(3, false, 201); grid_phase(4, false, 200); grid_phase(3, false, 101); grid_phase(3, true, 100); for (int e = 0; e < 6; e++) { grid_phase(4, false, e); grid_phase(3, true, e); } grid_phase(4, true, 0); grid_phase(4, true, 2); }
